@@ -533,6 +533,53 @@ func matchFinding(fs []Finding, prop string, hm HarnessMeta, v sym.Violation) *F
 	return nil
 }
 
+// diversify picks up to n members of a counterexample group that differ as much as possible in their
+// case-split choices (the first member, then greedily the one farthest from those already picked).
+func diversify(vs []sym.Violation, n int) []sym.Violation {
+	if len(vs) <= n {
+		return vs
+	}
+	dist := func(a, b sym.Violation) int {
+		d := 0
+		for k, v := range a.Choices {
+			if w, ok := b.Choices[k]; !ok || w != v {
+				d++
+			}
+		}
+		for k := range b.Choices {
+			if _, ok := a.Choices[k]; !ok {
+				d++
+			}
+		}
+		return d
+	}
+	picked := []sym.Violation{vs[0]}
+	used := map[int]bool{0: true}
+	for len(picked) < n {
+		best, bestD := -1, -1
+		for i, v := range vs {
+			if used[i] {
+				continue
+			}
+			m := 1 << 30
+			for _, p := range picked {
+				if d := dist(v, p); d < m {
+					m = d
+				}
+			}
+			if m > bestD {
+				best, bestD = i, m
+			}
+		}
+		if best < 0 {
+			break
+		}
+		used[best] = true
+		picked = append(picked, vs[best])
+	}
+	return picked
+}
+
 // ---------- evidence ----------
 
 func main() {
@@ -694,6 +741,9 @@ func cmdCheck(prop, tier string, only *regexp.Regexp) int {
 		total, attempts int
 		confirmed       bool
 		failedReplays   []string
+		members         []sym.Violation
+		hm              HarnessMeta
+		known           *Finding
 	}
 	groups := map[string]*groupState{}
 	var groupOrder []string
@@ -754,13 +804,21 @@ func cmdCheck(prop, tier string, only *regexp.Regexp) int {
 			}
 			st := groups[g]
 			if st == nil {
-				st = &groupState{}
+				st = &groupState{hm: hm, known: known}
 				groups[g] = st
 				groupOrder = append(groupOrder, g)
 			}
 			st.total++
-			if st.confirmed || st.attempts >= 5 {
-				continue
+			st.members = append(st.members, v)
+		}
+	}
+	for _, g := range groupOrder {
+		st := groups[g]
+		hm := st.hm
+		known := st.known
+		for _, v := range diversify(st.members, 6) {
+			if st.confirmed {
+				break
 			}
 			cexN++
 			path, err := writeReplay(prop, hm, v, cexN)
